@@ -341,7 +341,7 @@ pub fn gen_group(r: &mut Rng) -> (String, usize) {
         0 | 1 => {
             let t = *r.pick(&["38", "48", "58"]);
             let n = *r.pick(&[0usize, 1, 7, 8, 15, 16, 100, 200, 231, 232, 255]);
-            let n = if r.chance(1, 3) { r.below(256) } else { n };
+            let n = if r.chance(1, 3) { r.below(256) } else if r.chance(1, 3) { r.below(16) } else { n };
             if r.chance(1, 2) { (format!("{t};5;{n}"), 3) } else { (format!("{t}:5:{n}"), 1) }
         }
         2 | 3 => {
@@ -426,6 +426,28 @@ pub fn gen_styled_text(r: &mut Rng, target: usize, xmlish: bool) -> Vec<u8> {
             10..=15 => gen_sgr(r, &mut out),
             16 => gen_other_csi(r, &mut out),
             17 => gen_osc(r, &mut out, Flavor::Utf8),
+            18 if r.chance(1, 3) => {
+                // a sequence that overflows the parser's limits (> 32 parameters or > 2 intermediates) and is then ABANDONED by
+                // CAN / SUB / a new ESC: nothing of it may influence the SGR that follows
+                out.extend_from_slice(b"\x1b[");
+                if r.chance(1, 2) {
+                    for _ in 0..r.range(33, 40) {
+                        out.extend_from_slice(r.below(50).to_string().as_bytes());
+                        out.push(b';');
+                    }
+                } else {
+                    out.extend_from_slice(b"1 !\"$");
+                }
+                out.push(*r.pick(&[0x18u8, 0x1a, 0x1b]));
+                if *out.last().unwrap() == 0x1b {
+                    out.extend_from_slice(b"[");
+                    out.extend_from_slice(gen_group(r).0.as_bytes());
+                    out.push(b'm');
+                } else {
+                    gen_sgr(r, &mut out);
+                }
+                out.push(r.range(0x41, 0x5a) as u8);
+            }
             18 => gen_esc(r, &mut out),
             _ => {
                 if xmlish {
